@@ -125,11 +125,17 @@ static bool ref_dec(const DT &t, const uint8_t *p, size_t n, size_t &pos, bool c
     case DT::SC: return rd(SCW[t.sc], v.bits);
     case DT::STR:
     case DT::BUF:
+    {
         if (!rd(2, c)) return false;
-        if (n - pos < c) return false;
-        v.bytes.assign((const char *)p + pos, c);
-        pos += c;
+        if (!clamp && n - pos < c) return false;
+        // bounded reader: a std::string has its announced length, the missing bytes are zero;
+        // an igris::buffer is a view into the input and is cut to the bytes that exist
+        size_t len = std::min<size_t>(c, n - pos);
+        v.bytes.assign((const char *)p + pos, len);
+        if (t.k == DT::STR) v.bytes.resize(c, '\0');
+        pos += len;
         return true;
+    }
     case DT::VEC:
         if (!rd(2, c)) return false;
         for (uint64_t i = 0; i < c; i++)
@@ -349,10 +355,10 @@ static void op_decode(char st, const std::string &desc, const std::string &inhex
     if (!dt_of(desc, dt)) { o.result = "bad-op"; o.fail("unparsable op"); return; }
     if (!S.has(desc)) { o.result = "unsupported"; o.fail("type not in the harness family: " + desc); return; }
     bytes input = unhex(inhex);
-    // reference first: the archive reader is only ever given inputs it can decode
+    // reference: both readers are bounded (missing bytes read as zero)
     DV rv;
     size_t rpos = 0;
-    bool rok = ref_dec(dt, input.data(), input.size(), rpos, st == 's', rv);
+    bool rok = ref_dec(dt, input.data(), input.size(), rpos, true, rv);
     if (!rok) { o.result = "fault"; o.tag("short-input-not-run"); return; }
     exact_buf eb(input);
     size_t consumed = 0;
@@ -374,9 +380,9 @@ static void op_decode(char st, const std::string &desc, const std::string &inhex
     }
 }
 
-static void op_trunc(const std::string &desc, const std::string &val, const std::string &ks, out &o)
+static void op_trunc(char st, const std::string &desc, const std::string &val, const std::string &ks, out &o)
 {
-    stack_iface &S = stack_s();
+    stack_iface &S = stack_of(st);
     DT dt;
     DV dv;
     if (!dt_of(desc, dt) || !dv_of(dt, val, dv)) { o.result = "bad-op"; o.fail("unparsable op"); return; }
@@ -640,7 +646,7 @@ static void run_op(const std::vector<std::string> &w, const std::string &, out &
     }
     if ((op == "da" || op == "ds") && w.size() == 3) return op_decode(op[1], w[1], w[2], nullptr, o);
     if ((op == "ga" || op == "gs") && w.size() == 4) return op_decode(op[1], w[1], w[2], &w[3], o);
-    if (op == "ts" && w.size() == 4) return op_trunc(w[1], w[2], w[3], o);
+    if ((op == "ts" || op == "tb") && w.size() == 4) return op_trunc(op == "ts" ? 's' : 'a', w[1], w[2], w[3], o);
     o.result = "bad-op";
     o.fail("unknown op");
 }
@@ -791,6 +797,14 @@ static void emit_rt(char st, const std::string &d, const DT &t, const DV &v, con
 }
 static DV mk_map(const DT &t, std::vector<DV> es);
 static DV mk_map_fwd(const DT &t, std::vector<DV> es) { return mk_map(t, es); }
+// the bounded archive reader on every / sampled truncation point of an encoding
+static void emit_tb(const std::string &d, const DT &t, const DV &v, rng &r)
+{
+    DV c = canon_a(d, t, v);
+    bytes e;
+    ref_enc(t, c, e);
+    printf("tb %s %s %s\n", d.c_str(), show(t, c).c_str(), ks_for(e.size(), r).c_str());
+}
 // entries in any order, possibly with equivalent keys -> the map value (first of equivalent keys wins)
 static DV mk_map(const DT &t, std::vector<DV> es)
 {
@@ -954,7 +968,15 @@ static void gen(rng &r, const std::string &tier)
         {
             size_t cap = i % 7 == 6 ? 300 : i % 3 == 0 ? 3 : 12;
             emit_rt('a', d, t, gen_val(t, r, cap), gen_rest(r));
+            if (i % 3 == 0) emit_tb(d, t, gen_val(t, r, i % 2 ? 3 : 6), r);
         }
+    }
+    // scalars, strings and buffers through the bounded archive reader at every truncation point
+    for (const char *d : {"u8", "i16", "u32", "i64", "f32", "f64", "str", "buf"})
+    {
+        DT t;
+        dt_of(d, t);
+        for (int i = 0; i < (th ? 60 : 6); i++) emit_tb(d, t, gen_val(t, r, i % 2 ? 3 : 40), r);
     }
     for (size_t di = 0; di < fs.size(); di++)
     {
@@ -1101,6 +1123,18 @@ static void gen(rng &r, const std::string &tier)
         for (auto &x : b) x = r.chance(85) ? (uint8_t)r.below(3) : r.chance(70) ? (uint8_t)r.below(16) : (uint8_t)r.next();
         if (n >= 2 && r.chance(90)) b[1] = (uint8_t)r.below(2); // keep the outer count moderate
         printf("ds %s %s\n", d.c_str(), hex(b).c_str());
+    }
+    // arbitrary short inputs to the bounded archive reader (maps with floating-point keys left out: arbitrary
+    // bytes may be NaN keys, which std::map does not order)
+    for (int i = 0; i < (th ? 3000 : 120); i++)
+    {
+        const std::string &d = fa[r.below(fa.size())];
+        if (d.find("M(") != std::string::npos && (d.find("f32") != std::string::npos || d.find("f64") != std::string::npos)) { i--; continue; }
+        size_t n = r.below(25);
+        bytes b(n);
+        for (auto &x : b) x = r.chance(85) ? (uint8_t)r.below(3) : r.chance(70) ? (uint8_t)r.below(16) : (uint8_t)r.next();
+        if (n >= 2 && r.chance(90)) b[1] = (uint8_t)r.below(2); // keep the outer count moderate
+        printf("da %s %s\n", d.c_str(), b.empty() ? "-" : hex(b).c_str());
     }
     // (7) extension: the remaining entry points
     puts("sizes2");
